@@ -28,6 +28,7 @@ type config struct {
 	MapRange    []string          `json:"map_range"`    // file suffixes in which range-over-map becomes a choice
 	Rename      map[string]string `json:"rename"`       // "pkgdir:Recv.Func" or "pkgdir:Func" -> new name
 	Selectors   map[string]string `json:"selectors"`    // "time.After" -> "vtime.After" (alias.Func of a shim)
+	NoSched     bool              `json:"no_sched"`     // only selector/rename rewrites (file-system seam builds): leave go/chan/sync alone
 	Fatal       bool              `json:"fatal"`        // rewrite log.Fatalf/log.Fatal to vsched.Fatal
 	BaseOverlay map[string]string `json:"base_overlay"` // overlay used while loading (export files etc.)
 }
@@ -57,20 +58,22 @@ type site struct {
 }
 
 type fileRW struct {
-	cfg           *config
-	fset          *token.FileSet
-	src           []byte
-	file          *ast.File
-	tf            *token.File
-	info          *types.Info
-	sites         []site
-	uses          map[string]bool // shim aliases needed
-	mapRange      bool
-	tmp           int
-	rendering     map[token.Pos]token.Pos
-	pkgdir        string
-	renamed       []string
-	timeRewritten bool
+	cfg            *config
+	fset           *token.FileSet
+	src            []byte
+	file           *ast.File
+	tf             *token.File
+	info           *types.Info
+	sites          []site
+	uses           map[string]bool // shim aliases needed
+	mapRange       bool
+	tmp            int
+	rendering      map[token.Pos]token.Pos
+	pkgdir         string
+	renamed        []string
+	timeRewritten  bool
+	osRewritten    bool
+	xattrRewritten bool
 }
 
 func (rw *fileRW) off(p token.Pos) int { return rw.tf.Offset(p) }
@@ -195,7 +198,7 @@ func (rw *fileRW) collect() {
 			labelOf[x.Stmt] = x
 		case *ast.ImportSpec:
 			path := strings.Trim(x.Path.Value, "\"")
-			if np, ok := importMap[path]; ok {
+			if np, ok := importMap[path]; ok && !rw.cfg.NoSched {
 				name := filepath.Base(path)
 				if x.Name != nil {
 					name = x.Name.Name
@@ -214,6 +217,12 @@ func (rw *fileRW) collect() {
 					if p == "time" {
 						rw.timeRewritten = true
 					}
+					if p == "os" {
+						rw.osRewritten = true
+					}
+					if p == "github.com/pkg/xattr" {
+						rw.xattrRewritten = true
+					}
 					rw.add(x, func() string { return "__" + to })
 				}
 			}
@@ -227,15 +236,24 @@ func (rw *fileRW) collect() {
 				}
 			}
 		case *ast.GoStmt:
+			if rw.cfg.NoSched {
+				return true
+			}
 			rw.uses["vsched"] = true
 			rw.add(x, func() string { return rw.renderGo(x) })
 		case *ast.SendStmt:
+			if rw.cfg.NoSched {
+				return true
+			}
 			if inSelectComm[x] {
 				return true
 			}
 			rw.uses["vsched"] = true
 			rw.add(x, func() string { return fmt.Sprintf("__vsched.Send(%s, %s)", rw.text(x.Chan), rw.text(x.Value)) })
 		case *ast.SelectStmt:
+			if rw.cfg.NoSched {
+				return true
+			}
 			rw.uses["vsched"] = true
 			for _, c := range x.Body.List {
 				cc := c.(*ast.CommClause)
@@ -245,6 +263,9 @@ func (rw *fileRW) collect() {
 					case *ast.ExprStmt:
 						inSelectComm[unparen(s.X)] = true
 					case *ast.AssignStmt:
+			if rw.cfg.NoSched {
+				return true
+			}
 						inSelectComm[unparen(s.Rhs[0])] = true
 					}
 				}
@@ -270,6 +291,9 @@ func (rw *fileRW) collect() {
 				}
 			}
 		case *ast.ValueSpec:
+			if rw.cfg.NoSched {
+				return true
+			}
 			if len(x.Names) == 2 && len(x.Values) == 1 {
 				if u := recvOf(x.Values[0]); u != nil {
 					rw.uses["vsched"] = true
@@ -278,16 +302,25 @@ func (rw *fileRW) collect() {
 				}
 			}
 		case *ast.UnaryExpr:
+			if rw.cfg.NoSched {
+				return true
+			}
 			if x.Op == token.ARROW && !inSelectComm[x] {
 				rw.uses["vsched"] = true
 				rw.add(x, func() string { return fmt.Sprintf("__vsched.Recv(%s)", rw.text(x.X)) })
 			}
 		case *ast.CallExpr:
+			if rw.cfg.NoSched {
+				return true
+			}
 			if id, ok := x.Fun.(*ast.Ident); ok && rw.isBuiltin(id, "close") && len(x.Args) == 1 {
 				rw.uses["vsched"] = true
 				rw.add(x, func() string { return fmt.Sprintf("__vsched.Close(%s)", rw.text(x.Args[0])) })
 			}
 		case *ast.RangeStmt:
+			if rw.cfg.NoSched {
+				return true
+			}
 			if rw.isChan(x.X) {
 				rw.uses["vsched"] = true
 				rw.add(x.X, func() string { return fmt.Sprintf("__vsched.RangeChan(%s)", rw.span(x.X.Pos(), x.X.End())) })
@@ -514,6 +547,12 @@ func main() {
 			}
 			if rw.timeRewritten {
 				body += "\nvar _ time.Duration\n"
+			}
+			if rw.osRewritten {
+				body += "\nvar _ os.FileMode\n"
+			}
+			if rw.xattrRewritten {
+				body += "\nvar _ = xattr.LGet\n"
 			}
 			dst := filepath.Join(cfg.Out, rel)
 			os.MkdirAll(filepath.Dir(dst), 0o755)
